@@ -95,7 +95,7 @@ Proof.
     destruct (Z.eqb_spec typ K.TypeMap) as [Em|Em].
     + destruct k as [k'|]; [|exfalso; apply Hk, Em]. destruct Hk as [_ Hk'].
       apply lift_crash in Hc. destruct Hc as [Hc | (nd & _ & Hc)]; [eapply read_coll_size_no_crash, Hc|].
-      destruct (fst nd <? 0); [discriminate|].
+      destruct (fst nd <? 0); [discriminate|]. destruct (fst nd >? _); [discriminate|].
       eapply map_loop_no_crash; [| |exact Hc]; [intros d0 c0; apply (IHk k' eq_refl Hk') | intros d0 c0; apply (IHe He)].
     + apply lift_crash in Hc. destruct Hc as [Hc | (nd & _ & Hc)]; [eapply read_coll_size_no_crash, Hc|].
       destruct (fst nd <? 0); [discriminate|]. destruct (fst nd >? _); [discriminate|].
@@ -453,7 +453,7 @@ Proof.
   - apply unmarshal_leaf_no_fuel.
   - cbn [unmarshal]. destruct data as [d|]; [|discriminate]. destruct (typ =? K.TypeMap).
     + destruct k as [k'|]; [|discriminate]. intros H. apply lift_err in H. destruct H as [H|(nd & Hn & H)]; [apply read_coll_size_err in H; discriminate|].
-      destruct (fst nd <? 0); [discriminate|]. revert H. apply map_loop_fuel; [apply (IHk k' eq_refl) | apply IHe | lia].
+      destruct (fst nd <? 0); [discriminate|]. destruct (fst nd >? _); [discriminate|]. revert H. apply map_loop_fuel; [apply (IHk k' eq_refl) | apply IHe | lia].
     + intros H. apply lift_err in H. destruct H as [H|(nd & Hn & H)]; [apply read_coll_size_err in H; discriminate|].
       destruct (fst nd <? 0); [discriminate|]. destruct (fst nd >? _); [discriminate|]. revert H. apply list_loop_fuel; [apply IHe | lia].
   - cbn [unmarshal]. generalize (opt_bytes data) as d. induction IH as [|e es IHe IHes IHl]; intros d; [discriminate|].
